@@ -3,7 +3,7 @@
    The definitions are those of Model/C18.v, the same ones the correspondence evaluates against
    partitura/musicanalysis/performance_codec.py on every run. *)
 From Coq Require Import ZArith QArith List Sorting.Sorted Sorting.Permutation Reals.
-From PV Require Import Lib.Base Lib.Round Model.C18 Model.C18_Check Proofs.C18 Proofs.C18_real.
+From PV Require Import Lib.Base Lib.Round Model.C18 Model.C18_Check Proofs.C18 Proofs.C18_spec Proofs.C18_tempo Proofs.C18_real.
 Import ListNotations.
 #[local] Open Scope Q_scope.
 
@@ -132,3 +132,120 @@ Theorem articulation_inverse_R : forall pd bp sd : R, (0 < pd)%R -> (0 < bp)%R -
   (exp2R (log2R (pd / (bp * sd))) * sd * bp)%R = pd.
 Proof. exact articulation_inverse. Qed.
 Print Assumptions articulation_inverse_R.
+
+(* ---------- hardening round: the specifications the correspondence checks on every run ---------- *)
+
+(* O1 for ANY parameter array (not only the encoder's): if timing_j + performed onset_j - (the decoder's
+   equivalent onset of j's score onset) is one common value c for all notes -- the relation the
+   correspondence checks on the implementation's parameter array, whatever tempo curve, timing origin and
+   normalisation constants produced it -- then the decoded onsets are the performed onsets up to ONE shift;
+   and conversely *)
+Theorem decode_consistent_onsets :
+  forall (NP : Type) (pmean : list NP -> NP) (rescale : NP -> Q) (npdefault : NP) (exp2 : Q -> Q)
+         (so sd po : list Q) (G : list (list nat)) (P : list (params NP)),
+    (forall c, (forall j, (j < List.length so)%nat -> cons_off NP pmean rescale npdefault so sd po G P j == c) ->
+       exists shift, forall j, (j < List.length so)%nat ->
+         fst (fst (nth j (decode NP pmean rescale npdefault exp2 so sd G P) (0, 0, 0%Z))) == nthQ po j + shift) /\
+    (forall shift, (forall j, (j < List.length so)%nat ->
+         fst (fst (nth j (decode NP pmean rescale npdefault exp2 so sd G P) (0, 0, 0%Z))) == nthQ po j + shift) ->
+       forall j, (j < List.length so)%nat ->
+         cons_off NP pmean rescale npdefault so sd po G P j
+         == - shift - minl (dec_raws NP pmean rescale npdefault so sd G P)).
+Proof. exact decode_consistent_both. Qed.
+Print Assumptions decode_consistent_onsets.
+
+(* the encoder's parameter array is consistent in that sense (c = mean performed onset of the first chord) *)
+Theorem encode_consistent :
+  forall (NP : Type) (scale : Q -> NP) (pmean : list NP -> NP) (rescale : NP -> Q) (npdefault : NP) (log2 : Q -> Q),
+    (forall x k, 0 < x -> rescale (pmean (repeat (scale x) (S k))) == x) ->
+  forall (so sd po pd : list Q) (vel : list Z) (G : list (list nat)) (bp : list Q),
+    groups_ok G (List.length so) = true ->
+    (forall i, (i < List.length G)%nat -> 0 < nthQ bp i) ->
+    forall j, (j < List.length so)%nat ->
+      cons_off NP pmean rescale npdefault so sd po G (encode NP scale log2 so sd po pd vel G bp) j == enc_first po G.
+Proof. exact encode_consistent_lemma. Qed.
+Print Assumptions encode_consistent.
+
+(* the normalisations as the correspondence evaluates them (columns as lists, rescale_n, column-wise chord
+   mean) satisfy the hypothesis of the round-trip theorems: beat_period, beat_period_ratio (any non-zero
+   constant), beat_period_standardized (any constants with x = mean where the deviation is 0) *)
+Theorem normalisation_instances_list_Q :
+  (forall mu s x k, rescale_n 0 (colmean (repeat (scale_n 0 mu s x) (S k))) == x) /\
+  (forall mu s x k, ~ mu == 0 -> rescale_n 2 (colmean (repeat (scale_n 2 mu s x) (S k))) == x) /\
+  (forall mu s x k, (s == 0 -> x == mu) -> rescale_n 4 (colmean (repeat (scale_n 4 mu s x) (S k))) == x).
+Proof. exact (conj norm_list_inv_0 (conj norm_list_inv_2 norm_list_inv_4)). Qed.
+Print Assumptions normalisation_instances_list_Q.
+
+(* O2 as a specification of the implementation's outputs: the checker perm_pairs accepts only permutations
+   (matched table, whatever its order); sids_ok accepts exactly ... a permutation of the matched pairs sorted
+   by score onset then pitch (whatever the order of notes sharing both); the modelled order is admitted *)
+Theorem matched_table_spec :
+  (forall a b, perm_pairs a b = true -> Permutation a b) /\
+  (forall sna pna al sids, sids_ok sna pna al sids = true ->
+     let M := matched_idx (map s_id sna) (map p_id pna) al in
+     let M' := pairs_by_ids sna M sids in
+     Permutation M' M /\ Sorted (fun a b => lex2_leb (key2 sna a) (key2 sna b) = true) M') /\
+  (forall sna pna al,
+     Sorted (fun a b => lex2_leb (key2 sna a) (key2 sna b) = true) (matched_sorted sna pna al)).
+Proof. exact (conj perm_pairs_perm (conj sids_ok_spec_lemma matched_sorted_admitted)). Qed.
+Print Assumptions matched_table_spec.
+
+(* O3 without hypotheses: the knots of the time maps always have strictly increasing score onsets, each knot
+   is (a matched score onset, the mean performed onset of the matched notes counted there), and
+   stime_to_ptime passes through every knot -- also for performances that are not monotone *)
+Theorem time_map_knots_spec : forall sna pna al rmo,
+  StronglySorted fst_lt (tm_knots sna pna al rmo) /\
+  (forall u p, In (u, p) (tm_knots sna pna al rmo) ->
+     stime_to_ptime (tm_knots sna pna al rmo) u == p /\
+     let M := matched_idx (map s_id sna) (map p_id pna) al in
+     let rows := map (fun m => (nth (fst m) sna sdefault, nth (snd m) pna pdefault_row)) M in
+     let sel := filter (fun r => Qeq_bool (s_on (fst r)) u && (negb rmo || negb (Qle_bool (s_dur (fst r)) 0))) rows in
+     sel <> [] /\ p = meanQ (map (fun r => p_on (snd r)) sel)).
+Proof. exact time_map_knots_both. Qed.
+Print Assumptions time_map_knots_spec.
+
+(* both built-in tempo curves are positive: strictly increasing unique score onsets x0 :: xr (the last entry
+   being the last score time), ANY performed chord times s0 :: sr followed by a last performed offset sl
+   above all of them -- monotone or not (monotonize_times) *)
+Theorem tempo_curves_positive :
+  forall (x0 : Q) (xr : list Q) (s0 : Q) (sr : list Q) (sl : Q),
+    StronglySorted Qlt_r (x0 :: xr) -> List.length xr = S (List.length sr) ->
+    s0 < sl -> Forall (fun e => e < sl) sr ->
+    Forall (fun b => 0 < b) (tempo_average (x0 :: xr) (s0 :: sr ++ [sl])) /\
+    Forall (fun b => 0 < b) (tempo_derivative (x0 :: xr) (s0 :: sr ++ [sl])).
+Proof. exact tempo_curves_positive_lemma. Qed.
+Print Assumptions tempo_curves_positive.
+
+(* ... and, for the encoder's own lists, without any hypothesis on the score or the performance: the unique
+   score onsets of the encoder's grouping (quantised keys, stable sort, split at gaps) increase strictly and
+   the last performed time exceeds every chord mean, so both tempo curves are positive for EVERY input *)
+Theorem tempo_curves_positive_encoder :
+  forall so sd po pd : list Q, so <> [] -> List.length po = List.length so ->
+    let G := enc_groups so in
+    let x := u_onsets so (map2 Qplus so sd) G in
+    let s := u_onsets po (map2 Qplus po pd) G in
+    Forall (fun b => 0 < b) (tempo_average x s) /\ Forall (fun b => 0 < b) (tempo_derivative x s).
+Proof. exact tempo_curves_positive_encoder_lemma. Qed.
+Print Assumptions tempo_curves_positive_encoder.
+
+(* O1 end to end for the model of encode_performance / decode_performance with either built-in tempo curve:
+   any non-empty matched score, any performance (no monotonicity, no positivity assumed for onsets), any
+   normalisation with a left inverse; the one remaining hypothesis is that decoder (eps 1e-6) and encoder
+   (keys int(1e4 * onset)) group the score onsets identically -- true whenever distinct onsets are >= 1e-4 beat
+   apart, checked on every run *)
+Theorem codec_roundtrip_builtin :
+  forall (NP : Type) (scale : Q -> NP) (pmean : list NP -> NP) (rescale : NP -> Q) (npdefault : NP)
+         (log2 exp2 : Q -> Q),
+    (forall x k, 0 < x -> rescale (pmean (repeat (scale x) (S k))) == x) ->
+    (forall x, 0 < x -> exp2 (log2 x) == x) ->
+  forall (method : Z) (so sd po pd : list Q) (vel : list Z),
+    so <> [] -> List.length po = List.length so ->
+    dec_groups so = enc_groups so ->
+    let G := enc_groups so in
+    let bp := tempo_curve method (u_onsets so (map2 Qplus so sd) G) (u_onsets po (map2 Qplus po pd) G) in
+    let out := decode NP pmean rescale npdefault exp2 so sd (dec_groups so) (encode NP scale log2 so sd po pd vel G bp) in
+    (exists shift : Q, forall j, (j < List.length so)%nat -> fst (fst (nth j out (0, 0, 0%Z))) == nthQ po j + shift) /\
+    (forall j, (j < List.length so)%nat -> 0 < nthQ sd j -> 0 < nthQ pd j -> snd (fst (nth j out (0, 0, 0%Z))) == nthQ pd j) /\
+    (forall j, (j < List.length so)%nat -> snd (nth j out (0, 0, 0%Z)) = dec_vel (enc_vel (nth j vel 0%Z))).
+Proof. exact codec_roundtrip_builtin_tc. Qed.
+Print Assumptions codec_roundtrip_builtin.
